@@ -498,6 +498,11 @@ func runNewState(c *StateCase) (tr trace) {
 				return fmt.Errorf("block %d: root after reopen %s differs from root computed by Update %s", n, again.String(), newRoot.String())
 			}
 			tr.Roots = append(tr.Roots, feltHex(&newRoot))
+			if recs, rerr := contractBucket(disk); rerr != nil {
+				return fmt.Errorf("block %d: %w", n, rerr)
+			} else {
+				tr.Fields = append(tr.Fields, recs)
+			}
 			prev = newRoot
 			lastVer = b.Version
 		}
@@ -510,6 +515,17 @@ func runNewState(c *StateCase) (tr trace) {
 		}
 	}
 	return tr
+}
+
+// model script for the state model with cached storage roots and a separate storage-trie store (ModelMigrate.lean),
+// natively built: one mblock per block
+func recordModelLines(c *StateCase, id int) (lines []string, blockIdx []int) {
+	lines = []string{fmt.Sprintf("mnew %d 1", id)}
+	for n := range c.Blocks {
+		blockIdx = append(blockIdx, len(lines))
+		lines = append(lines, diffLine("mblock", id, &c.Blocks[n]))
+	}
+	return lines, blockIdx
 }
 
 func runOldState(c *StateCase) (tr trace) {
@@ -1638,8 +1654,8 @@ func checkStateCases(f lib.Flags, res *lib.Result, drv *lib.Driver, cases []*Sta
 	// round 4: further models of the same histories — (a) the state model on tries reopened from the node
 	// database for every block, (b) what the node stores per block through Finalise, (c) through Store
 	type xoff struct {
-		l, fN, fO, sN, sO, y          int   // offsets into xans (-1 = not asked)
-		lIdx, fNi, fOi, sNi, sOi, yi []int // line index of every block
+		l, fN, fO, sN, sO, y, m           int   // offsets into xans (-1 = not asked)
+		lIdx, fNi, fOi, sNi, sOi, yi, mi []int // line index of every block
 	}
 	xo := make([]xoff, len(cases))
 	var xans []string
@@ -1647,7 +1663,7 @@ func checkStateCases(f lib.Flags, res *lib.Result, drv *lib.Driver, cases []*Sta
 		var all []string
 		for i, c := range cases {
 			o := &outs[i]
-			x := xoff{l: -1, fN: -1, fO: -1, sN: -1, sO: -1, y: -1}
+			x := xoff{l: -1, fN: -1, fO: -1, sN: -1, sO: -1, y: -1, m: -1}
 			add := func(off *int, idx *[]int, ls []string, ix []int) {
 				*off = len(all)
 				*idx = ix
@@ -1660,6 +1676,11 @@ func checkStateCases(f lib.Flags, res *lib.Result, drv *lib.Driver, cases []*Sta
 			if o.old.Err == "" {
 				ls, ix := legacyStateModelLines(c, 0, legacyPurgeVariant)
 				add(&x.y, &x.yi, ls, ix)
+			}
+			if o.nw.Err == "" && o.old.Err == "" {
+				// (the model keeps the legacy state next to the native one until a migration: both must accept)
+				ls, ix := recordModelLines(c, 0)
+				add(&x.m, &x.mi, ls, ix)
 			}
 			if o.chN != nil && o.chN.Err == "" {
 				ls, ix := chainFinModelLines(c, 0, finaliseFixedVariant[0], true)
@@ -1720,6 +1741,24 @@ func checkStateCases(f lib.Flags, res *lib.Result, drv *lib.Driver, cases []*Sta
 				}
 			}
 			res.Hit("state:model-on-reopened-tries")
+		}
+		if x.m >= 0 {
+			// core/state with the records' cached storage roots: root and the whole Contract bucket after every block
+			for n := range c.Blocks {
+				res.Compared(2)
+				root, recs, err := parseMigAnswer(xans[x.m+x.mi[n]], true)
+				if err != nil || root != at(o.nw.Roots, n) {
+					res.Mismatch(lib.Mismatch{Sig: "state-root-with-cached-storage-roots", Input: c, Model: fmt.Sprintf("block %d: %s %v", n, root, err), Impl: at(o.nw.Roots, n)})
+					break
+				}
+				if n < len(o.nw.Fields) {
+					if d := compareSet(recs, o.nw.Fields[n]); d != "" {
+						res.Mismatch(lib.Mismatch{Sig: "contract-records-after-block", Input: c, Model: fmt.Sprintf("block %d: %s", n, d)})
+						break
+					}
+					res.HitN("store-diff:contract-records-compared", len(recs))
+				}
+			}
 		}
 		if x.y >= 0 {
 			// the transcription of core/deprecatedstate: root and the two per-field buckets after every block
